@@ -98,44 +98,39 @@ theorem taiko_pipeline_stages_total (ls : List Str) (hm : (decodeLines ls).mode 
     obtain ⟨P, hP, _⟩ := Rosu.TaikoPre.preprocess_spec (preArith O) clock objs
     exact ⟨P, hP⟩
 
-/-- the full C02 statement for the concrete taiko composition -/
-def TaikoPipelineGradualEqOneShot : Prop :=
-  ∀ (A : SecArith R) (fuel : Nat) (hw : R) (hits : List Bool) (recs : List (TObj R)),
-    recs.length = hits.length - 2 →
+/-- **(gradual = one-shot, every arithmetic, EVERY object list)**: for every hit list — 0, 1, 2
+objects, non-hit first objects, … — and one record per difficulty object, the first `H` values of
+`TaikoGradualDifficulty` (`H` = number of hits) run with the CONCRETE five skills are the one-shot
+results for `passed_objects = 1, …, H`: same `max_combo`, same five skill states (hence, bit for bit
+in the IEEE instance, the same ratings and stars), same panic / fuel outcome.  (Since /repo ea9de37;
+before the repair this needed "first two objects are hits, ≥ 3 objects".)  When the last object is
+a hit, every `passed_objects ≥ H` gives the same result as `H`, so the last gradual value is the
+full calculation; without that hypothesis the final-value clause is false of the code (recorded
+finding `taiko-gradual-trailing-nonhit`: the unlimited one-shot path also processes drum rolls /
+swells after the last hit). -/
+theorem taiko_pipeline_gradual_eq_oneshot (A : SecArith R) (fuel : Nat) (hw : R)
+    (hits : List Bool) (recs : List (TObj R)) (hlen : recs.length = hits.length - 2) :
     ((taikoMachine (concreteSkills5 A fuel hw false recs) hits).nexts
-        (taikoNew (concreteSkills5 A fuel hw false recs) hits) (hits.filter id).length).1.map
+        (taikoNew (concreteSkills5 A fuel hw false recs) hits) (hitsIn hits)).1.map
       (fun r => match r with
         | Gradual.Res.some (mc, s) => Gradual.Res.some (mc, combine5 s)
         | Gradual.Res.none => Gradual.Res.none
         | Gradual.Res.panic => Gradual.Res.panic)
-      = (List.range (hits.filter id).length).map fun d => Gradual.Res.some (oneShotSkills A fuel hw hits recs (d + 1))
-
-/-- **(gradual = one-shot, partial, every arithmetic)**: on a map whose first two objects are hits
-and that has at least three objects — the hypotheses of `taiko_next_eq_prefix_partial` — the first
-`H` values of `TaikoGradualDifficulty` (`H` = number of hits) run with the CONCRETE five skills are
-the one-shot results for `passed_objects = 1, …, H`: same `max_combo`, same five skill states
-(hence, bit for bit in the IEEE instance, the same ratings and stars), same panic / fuel outcome.
-Outside these hypotheses the full statement `TaikoPipelineGradualEqOneShot` is false of the code:
-known findings `taiko-gradual-first-two-objects` and `taiko-gradual-trailing-nonhit`
-(`taiko_first_nonhit_fails`, `taiko_short_map_fails`, `taiko_trailing_nonhit_fails` in Props/C02.lean). -/
-theorem taiko_pipeline_gradual_eq_oneshot_partial (A : SecArith R) (fuel : Nat) (hw : R)
-    (rest : List Bool) (hne : rest ≠ []) (recs : List (TObj R))
-    (hlen : recs.length = (true :: true :: rest).length - 2) :
-    ((taikoMachine (concreteSkills5 A fuel hw false recs) (true :: true :: rest)).nexts
-        (taikoNew (concreteSkills5 A fuel hw false recs) (true :: true :: rest)) (2 + hitsIn rest)).1.map
-      (fun r => match r with
-        | Gradual.Res.some (mc, s) => Gradual.Res.some (mc, combine5 s)
-        | Gradual.Res.none => Gradual.Res.none
-        | Gradual.Res.panic => Gradual.Res.panic)
-      = (List.range (2 + hitsIn rest)).map fun d =>
-          Gradual.Res.some (oneShotSkills A fuel hw (true :: true :: rest) recs (d + 1)) := by
-  rw [(taiko_next_eq_prefix_partial _ rest hne).1]
-  simp only [List.map_map]
-  apply List.map_congr_left
-  intro d _
-  simp only [Function.comp]
-  have := taikoOneShot_concrete A fuel hw (true :: true :: rest) recs hlen (by simp) (d + 1)
-  rw [← this]
+      = (List.range (hitsIn hits)).map (fun d => Gradual.Res.some (oneShotSkills A fuel hw hits recs (d + 1))) ∧
+    (hits.getLast? = some true → ∀ big, hitsIn hits ≤ big →
+      oneShotSkills A fuel hw hits recs (hitsIn hits) = oneShotSkills A fuel hw hits recs big) := by
+  constructor
+  · rw [(taiko_next_eq_prefix _ hits).1]
+    simp only [List.map_map]
+    apply List.map_congr_left
+    intro d _
+    simp only [Function.comp]
+    have := taikoOneShot_concrete A fuel hw hits recs hlen (d + 1)
+    rw [← this]
+  · intro hlast big hbig
+    rw [← taikoOneShot_concrete A fuel hw hits recs hlen (hitsIn hits),
+      ← taikoOneShot_concrete A fuel hw hits recs hlen big,
+      taiko_last_eq_full _ hits hlast big hbig]
 
 end Every
 
